@@ -37,36 +37,50 @@ Definition sync_sx (a : action) : list sx :=
   | AWrite h => [SL [SZ 2; SN h]]
   | AWriteFail h => [SL [SZ 3; SN h]]
   | AErrCall => [SL [SZ 4]]
-  | AEvDisconnected inb => [SL [SZ 5; SN inb]]
+  | AEvDisconnected inb => [SL [SZ 5; SN inb; SB true]]   (* true: the event carries the session's own Id and queue *)
   | AEvStreamError => [SL [SZ 6]]
   | ADisconnectCall => [SL [SZ 7]]
   | ARecvStreamClose => [SL [SZ 8]]
   | AQuit => [SL [SZ 9]]
   end.
-(* The closing of the keepalive quit channel is observed at two moments only: when the
-   Disconnected handler starts (closed by then or not) and when the loop has returned.
-   Its position relative to the other callbacks is not observable and not rendered: a
-   quit that precedes the Disconnected event is shown immediately before that event. *)
-Fixpoint sync_list (pending : bool) (tr : list action) : list sx :=
-  match tr with
-  | [] => if pending then [SL [SZ 9]] else []
-  | AQuit :: r => if existsb (fun a => match a with AEvDisconnected _ => true | _ => false end) r
-                  then sync_list true r else SL [SZ 9] :: sync_list pending r
-  | AEvDisconnected inb :: r =>
-      (if pending then [SL [SZ 9]] else []) ++ SL [SZ 5; SN inb] :: sync_list false r
-  | a :: r => sync_sx a ++ sync_list pending r
-  end.
+(* The keepalive quit channel is sampled by the harness whenever the receive goroutine enters anything the
+   harness can see (a handler called synchronously, the error callback, an event handler, a transport
+   call): "closed" is logged before the first such action that finds it closed.  In the model's trace
+   [AQuit] is always directly followed by such an action, so it is rendered where it stands. *)
+Definition sync_list (tr : list action) : list sx := flat_map sync_sx tr.
 Definition async_sx (a : action) : list sx :=
   match a with ARouteAsync i => [item_sx i] | _ => [] end.
 
-Record rinput := { r_component : bool; r_inb : N; r_wfail : option nat; r_items : list item }.
+(* write faults: the listed writes fail, and every write from [from] on (0: none) *)
+Definition fault_oracle (idx : list nat) (from : nat) : nat -> bool :=
+  fun n => existsb (Nat.eqb n) idx || (negb (Nat.eqb from 0) && Nat.leb from n).
+(* the history: elements, possibly ended by (7 t): a stream error whose event handler replaces the connection
+   (what the harness lists behind it stays on the old connection and is nobody's) *)
+Fixpoint dec_items (l : list sx) : option (list item * option N) :=
+  match l with
+  | [] => Some ([], None)
+  | SL [SZ 7; SZ t] :: _ => Some ([], Some (Z.to_N t))
+  | x :: r =>
+      do i <- dec_item x;
+      match dec_items r with
+      | Some (is, h) => Some (i :: is, h)
+      | None => None
+      end
+  end.
+Record rinput := { r_component : bool; r_inb : N; r_wfail : nat -> bool; r_items : list item;
+                   r_handover : option N }.
 
 Definition dec_input (x : sx) : option rinput :=
   match x with
   | SL [comp; inb; wf; items] =>
-      do c <- as_b comp; do i <- as_n inb; do w <- as_opt as_nat wf;
-      do l <- as_list dec_item items;
-      Some {| r_component := c; r_inb := i; r_wfail := w; r_items := l |}
+      do c <- as_b comp; do i <- as_n inb;
+      do w <- match wf with
+              | SL [idx; from] => do ix <- as_list as_nat idx; do f <- as_nat from; Some (fault_oracle ix f)
+              | _ => None
+              end;
+      do xs <- as_l items;
+      do lh <- dec_items xs;
+      Some {| r_component := c; r_inb := i; r_wfail := w; r_items := fst lh; r_handover := snd lh |}
   | _ => None
   end.
 
@@ -85,10 +99,13 @@ Definition partition_routes (l : list sx) : list sx :=
 
 Definition run_typed (i : rinput) : sx :=
   let tr := if r_component i then precv (r_items i)
-            else crecv (r_inb i) 0 (r_wfail i) (r_items i) in
+            else match r_handover i with
+                 | Some t => crecv_handover t (r_inb i) 0 (r_wfail i) (r_items i)
+                 | None => crecv (r_inb i) 0 (r_wfail i) (r_items i)
+                 end in
   (* third component: goroutines of the library left after the loop ended; the model's
      threads all terminate (crecv/precv are structurally recursive), so 0 *)
-  SL [SL (if r_component i then partition_routes (sync_list false tr) else sync_list false tr);
+  SL [SL (if r_component i then partition_routes (sync_list tr) else sync_list tr);
       SL (flat_map async_sx tr); SZ 0].
 
 Definition run_recv : sx -> sx := with_input dec_input run_typed.
